@@ -97,13 +97,25 @@ def world_header(model, w):
     links = [WD.find_link(model, w, l) for l in w["links"]]
     cidx = {c["name"]: i + 1 for i, c in enumerate(w["comps"])}
     pidx = {p["name"]: i + 1 for i, p in enumerate(w["pars"])}
-    pars = [model.get_pop(p["pop"]).get_par(p["base"]) for p in w["pars"]]
+    class _Pseudo:  # the environment's choices that are not model parameters: program capacities (people / year) and the gate
+        def __init__(self, vals):
+            self.vals = np.asarray(vals, dtype=float)
+
+    def par_of(p):
+        if p.get("pseudo") == "gate":
+            ins = model.program_instructions
+            return _Pseudo([1.0 if (ins is not None and ins.start_year <= t <= ins.stop_year) else 0.0 for t in model.t])
+        if p.get("pseudo") == "cap":
+            return _Pseudo(model.program_instructions.capacity[p["prog"]].interpolate(model.t, method="previous"))
+        return model.get_pop(p["pop"]).get_par(p["base"])
+
+    pars = [par_of(p) for p in w["pars"]]
     hdr = dict(ev="hdr", id=w["id"], dt=FX.fix(float(w["dt"])), kind=[c["kind"] for c in w["comps"]], rows=[c["rows"] for c in w["comps"]],
                dur=[FX.fix(float(c["D"] or 0)) for c in w["comps"]], grp=[c["grp"] for c in w["comps"]],
                lsrc=[cidx[l["src"]] for l in w["links"]], ldst=[cidx[l["dst"]] for l in w["links"]],
                lpar=[0 if (l["par"] == ">" or l["flush"]) else pidx[l["par"]] for l in w["links"]],
                ltimed=[bool(l["timed"]) for l in w["links"]], lflush=[bool(l["flush"]) for l in w["links"]],
-               units=[p["units"] for p in w["pars"]], tscale=[FX.fix(float(p["T"] or 1)) for p in w["pars"]])
+               units=[p["units"] or "none" for p in w["pars"]], tscale=[FX.fix(float(p["T"] or 1)) for p in w["pars"]])
     return hdr, comps, links, pars
 
 
